@@ -150,13 +150,41 @@ func (w *W) watchdog() {
 		if w.HeapBudget > 0 {
 			var ms runtime.MemStats
 			runtime.ReadMemStats(&ms)
-			if ms.HeapAlloc > w.HeapBudget {
+			if ms.HeapAlloc <= w.HeapBudget && ms.HeapSys > 3*w.HeapBudget {
+				// address space that earlier cases needed for a moment is still
+				// mapped: start afresh before the process limit is met by a case
+				// that has nothing to do with it
 				idx := w.curIdx.Load()
 				os.WriteFile(filepath.Join(w.OutDir, fmt.Sprintf("timeout.%d", w.Shard)),
-					[]byte(fmt.Sprintf("%d heap=%d\n", idx, ms.HeapAlloc)), 0o644)
+					[]byte(fmt.Sprintf("%d heapsys=%d code=5\n", idx, ms.HeapSys)), 0o644)
 				w.res.LastIdx = idx
 				w.dump()
-				os.Exit(4)
+				os.Exit(5)
+			}
+			if ms.HeapAlloc > w.HeapBudget {
+				// whose memory is it? The harness keeps state of its own (the set of
+				// cases seen, a mutation corpus). Collect, look again a little later:
+				// only a case that is still the open one and still holds the memory is
+				// blamed (exit 4, and the coordinator re-runs it alone before it
+				// believes that); otherwise the worker just asks to be restarted with a
+				// fresh heap (exit 5).
+				idx := w.curIdx.Load()
+				runtime.GC()
+				time.Sleep(250 * time.Millisecond)
+				runtime.ReadMemStats(&ms)
+				if ms.HeapAlloc <= w.HeapBudget && w.curIdx.Load() != idx {
+					continue
+				}
+				code := 4
+				if w.curIdx.Load() != idx {
+					code = 5
+					idx = w.curIdx.Load()
+				}
+				os.WriteFile(filepath.Join(w.OutDir, fmt.Sprintf("timeout.%d", w.Shard)),
+					[]byte(fmt.Sprintf("%d heap=%d code=%d\n", idx, ms.HeapAlloc, code)), 0o644)
+				w.res.LastIdx = idx
+				w.dump()
+				os.Exit(code)
 			}
 		}
 		used := float64(processCPU()-st) / 1e9
